@@ -404,6 +404,7 @@ func c08Stream(r *eng.Run) {
 	p.Marks = MarksOf(frames)
 	p.SegMode = DrawSeg(r)
 	p.EOFWithData = r.T.Chance(sim.LFault, 1, 4) // the last bytes arrive together with io.EOF
+	p.ZeroReads = r.T.Chance(sim.LFault, 1, 8)
 	if mode != 0 && r.T.Chance(sim.LHist, 1, 4) {
 		// An earlier connection of the same process, read with the same
 		// helper, ended inside a text message that is not valid UTF-8.
